@@ -10,7 +10,8 @@ import MirModel.Basic
       `itertools.permutations(range(nsrc))`, and the fancy-indexed selection of the outputs
     * `_any_source_silent`, `validate`, the empty-input special cases (with their arities)
     * `bss_eval_sources_framewise`, `bss_eval_images_framewise` : `nwin`, the window slices, the `nwin < 2`
-      fall-back, the NaN columns of silent windows — including the cells the code never writes (`Cell.uninit`).
+      fall-back, the NaN columns of silent windows (`Cell.uninit` = a cell of an `np.empty` array that is never
+      assigned; the repaired code leaves none, a mutant that forgets an output does).
   The definitions that theorems are stated about are polymorphic in the signal type `V` (only `+ - neg`) and
   in the energy functional; the driver instantiates them at `Sig` (lists of `Rat`, pointwise).
 -/
@@ -259,15 +260,15 @@ def sourcesFramewise (ev : Arr → Arr → Bool → Nat → Nat → Rat)
   if ref.size = 0 ∨ est.size = 0 then return .empties 4
   framewiseBody 4 (fun _ => true) ev ref est window hop cp
 
-/-- `bss_eval_images_framewise` (`ev` = `bss_eval_images`) AS IT IS: the empty special case returns four
-    arrays, and the silent-window branch does not assign `isr[:, k]` (output number 1). -/
+/-- `bss_eval_images_framewise` (`ev` = `bss_eval_images`): the empty special case returns five arrays and
+    the silent-window branch assigns NaN to all five outputs (since the `fix:` commits b910d54, 1910533). -/
 def imagesFramewise (ev : Arr → Arr → Bool → Nat → Nat → Rat)
     (ref est : Arr) (window hop : Int) (cp : Bool) : Py Out := do
   let est := atleast3d est
   let ref := atleast3d ref
   validate ref est
-  if ref.size = 0 ∨ est.size = 0 then return .empties 4
-  framewiseBody 5 (fun o => o != 1) ev ref est window hop cp
+  if ref.size = 0 ∨ est.size = 0 then return .empties 5
+  framewiseBody 5 (fun _ => true) ev ref est window hop cp
 
 /-! ### driver glue -/
 
